@@ -35,6 +35,8 @@ type genOp struct {
 
 // Corpus: hand-written operations that pin the shapes named in DESIGN section 7 (run first).
 var Corpus = []string{
+	// an object with exactly one resolver field, non-null, selected twice: both instances fail
+	`query Op { solo { x: only y: only plain } scalar }`,
 	`query Op { a { ...F @skip(if: true) ...F } } fragment F on A { a1 }`,
 	`query Op { named { ... on Node { name } ... on Named { name } } }`,
 	`query Op { u { __typename ... on A { __typename a1 } } }`,
@@ -294,6 +296,14 @@ func RunFull(c *gen.Ctx, prop string, cfgs []xeng.Config, nops, perOp int, singl
 			o2 := xeng.NewOracle()
 			o2.Fields["as.1.kids"] = xeng.FieldPlan{O: "null"}
 			plan = append(plan, planned{i, o2})
+		}
+		if strings.Contains(q, "solo { x: only y: only") {
+			for _, kinds := range [][2]string{{"error", "error"}, {"panic", "error"}, {"error", "panic"}} {
+				o := xeng.NewOracle()
+				o.Fields["solo.x"] = xeng.FieldPlan{O: kinds[0], Tag: "x"}
+				o.Fields["solo.y"] = xeng.FieldPlan{O: kinds[1], Tag: "y"}
+				plan = append(plan, planned{i, o})
+			}
 		}
 		if strings.HasPrefix(q, "mutation Op { m1 m2") {
 			// non-null fields of the Mutation root (executed serially, on another code path of the object
